@@ -8,7 +8,9 @@ import (
 
 	goat "github.com/avos-io/goat"
 	"google.golang.org/grpc"
+	"google.golang.org/grpc/codes"
 	"google.golang.org/grpc/metadata"
+	"google.golang.org/grpc/status"
 )
 
 // c07CancelOnOpen is a client transport that ends the caller's context at the very moment the opening
@@ -99,4 +101,85 @@ func wireBrief(evs []WireEv) []string {
 		out = append(out, e.Dir+" "+shapeOf(e.Rpc))
 	}
 	return out
+}
+
+// c07CancelAfterNeighbourReturnedEarly: two streams on one connection. Stream A's handler returns after
+// its first message while its caller has three more under way; afterwards the caller of stream B
+// (opened earlier, its handler waiting on its context) cancels. B's caller gets Canceled, its reset is
+// read, and B's handler context becomes done — whatever A's leftovers did to the connection.
+func c07CancelAfterNeighbourReturnedEarly(r *Run) {
+	if !r.Want("neighbour") {
+		return
+	}
+	for rep, reps := 0, r.Scale(3, 24); rep < reps && r.NumViolations() <= 4; rep++ {
+		in := map[string]any{"rep": rep, "stream A": "handler returns after 1 of 4 messages", "stream B": "cancelled by its caller afterwards"}
+		r.Progress("neighbour", in)
+		rig := NewRig(RigOpt{Serialise: rep%2 == 0})
+		hctxB := make(chan context.Context, 1)
+		aDone := make(chan struct{})
+		rig.Impl.SetStream(func(m string, ss grpc.ServerStream) error {
+			if mdGet(ss.Context(), "x-who") == "B" {
+				hctxB <- ss.Context()
+				<-ss.Context().Done()
+				return ss.Context().Err()
+			}
+			defer close(aDone)
+			recvB(ss)
+			return status.Error(codes.InvalidArgument, "first message rejected")
+		})
+		bctx, bcancel := context.WithCancel(metadata.AppendToOutgoingContext(context.Background(), "x-who", "B"))
+		csB, err := rig.CC.NewStream(bctx, descBidi, mBidi)
+		if err != nil {
+			bcancel()
+			r.Violate("neighbour.open", "schedule", "stream B could not be opened", in, err.Error(), nil)
+			rig.Close()
+			return
+		}
+		var hc context.Context
+		select {
+		case hc = <-hctxB:
+		case <-time.After(hangTimeout):
+			r.Violate("neighbour.setup", "schedule", "handler B was not started", in, goroutineDump(), nil)
+			bcancel()
+			rig.Close()
+			return
+		}
+		// stream A: four messages, the handler leaves after the first
+		actx, acancel := context.WithTimeout(metadata.AppendToOutgoingContext(context.Background(), "x-who", "A"), 2*hangTimeout)
+		if csA, err := rig.CC.NewStream(actx, descCli, mCliStream); err == nil {
+			for i := 0; i < 4; i++ {
+				if sendB(csA, []byte(fmt.Sprintf("a%d", i))) != nil {
+					break
+				}
+			}
+			select {
+			case <-aDone:
+			case <-time.After(hangTimeout):
+			}
+			time.Sleep(3 * time.Millisecond)
+		}
+		bcancel()
+		ok := true
+		if !within(hangTimeout, func() {
+			if _, err := recvB(csB); status.Code(err) != codes.Canceled {
+				r.Violate("neighbour.caller", "schedule", "a receive after the caller's cancellation did not return Canceled", in, fmt.Sprint(err), "Canceled")
+			}
+		}) {
+			r.Violate("neighbour.caller", "schedule", "a receive after the caller's cancellation did not return", in, goroutineDump(), nil)
+			ok = false
+		}
+		select {
+		case <-hc.Done():
+		case <-time.After(c11ProbeDeadline):
+			r.Violate("neighbour.handler", "schedule", "stream B was cancelled by its caller, but its handler's context is still live (another stream's handler had returned early with messages under way)", in, "live after "+c11ProbeDeadline.String(), "done")
+			ok = false
+		}
+		acancel()
+		r.Eval(fmt.Sprintf("neighbour/%d", rep), true)
+		r.Count("c07.neighbour")
+		rig.Close()
+		if !ok {
+			return
+		}
+	}
 }
